@@ -60,6 +60,17 @@ theorem encWord_length (fl : Flavor) {w : Nat} (hw : w = 4 ∨ w = 8) (n : Nat) 
     simpa [wperm] using this
   · simp [hs]
 
+theorem decWord_encWord (fl : Flavor) {w : Nat} (hw : w = 4 ∨ w = 8) (n : Nat) :
+    decWord fl w (encWord fl w n) = n % 256 ^ w := by
+  unfold decWord encWord
+  by_cases hs : fl.swap
+  · simp only [hs, if_true]
+    have := wperm_invol hw (encLE w n) (by simp)
+    simp only [wperm] at this
+    rw [this, decLE_encLE]
+  · simp only [hs]
+    simp [decLE_encLE]
+
 theorem rdWord_encWord (fl : Flavor) {w : Nat} (hw : w = 4 ∨ w = 8) (n : Nat) (r : Bytes) :
     rdWord fl w (encWord fl w n ++ r) = .ok (n % 256 ^ w, r) := by
   have hl := encWord_length fl hw n
@@ -68,15 +79,7 @@ theorem rdWord_encWord (fl : Flavor) {w : Nat} (hw : w = 4 ∨ w = 8) (n : Nat) 
     have := takeN_append (encWord fl w n) r
     rwa [hl] at this
   rw [ht]
-  simp only
-  unfold encWord
-  by_cases hs : fl.swap
-  · simp only [hs, if_true]
-    have := wperm_invol hw (encLE w n) (by simp)
-    simp only [wperm] at this
-    rw [this, decLE_encLE]
-  · simp only [hs]
-    simp [decLE_encLE]
+  simp only [decWord_encWord fl hw]
 
 theorem encInt_length (fl : Flavor) (x : Int) : (encInt fl x).length = fl.ibytes := by
   unfold encInt Flavor.ibytes
